@@ -13,9 +13,10 @@ namespace NS
 theorem cli_exit_args_literal_one : ∀ e ∈ cliExitTable, e.2.2 = "1" := by
   simp [cliExitTable]
 
-/-- `check` has exactly one exit site, guarded by a non-zero error count -/
+/-- `check` has exactly one exit site, reached only when `GetErrorsCount()` is not zero (the guard is reported on what
+    defines the tested local, and an early `return` on the opposite condition counts as the guard) -/
 theorem cli_check_single_exit_guard :
-    (cliExitTable.filter (fun e => e.1 == "check")).map (fun e => e.2.1) = ["errorsCount != 0"] := by
+    (cliExitTable.filter (fun e => e.1 == "check")).map (fun e => e.2.1) = ["GetErrorsCount() != 0"] := by
   simp [cliExitTable]
 
 /-- the status observed by the parent process is non-zero exactly when some diagnostic has error severity -/
